@@ -1,2 +1,3 @@
 import Drv.Codec
 import Drv.Topic
+import Drv.Session
